@@ -1,7 +1,22 @@
-"""Thorough tier: extra build configurations (feature matrix x profiles)."""
+"""Thorough tier: the same rules over the feature matrix x profiles, the compile-fail witnesses
+(type-level part of IM) and the checker self-test cases of the property.
+
+Nothing here runs rsdd code: extra configurations are further `cargo check` passes through the
+driver; witnesses are `cargo +nightly test --doc` on a crate whose doc-tests are either
+`compile_fail,E0xxx` or `no_run`; the self-test edits a scratch copy and re-runs the driver.
+"""
+import os
+import shutil
+import subprocess
+import tempfile
+import time
+
 from . import facts, mir
 
+V = os.path.dirname(os.path.dirname(os.path.abspath(__file__)))
 CONFIGS = [("ffi,cli", True), ("", False), ("ffi", False), ("cli", False)]
+WITNESS_PROPS = {"C01", "C02", "C03", "C04", "C10"}
+N_WITNESS = 10
 
 
 def extra_configs(pids):
@@ -12,5 +27,80 @@ def extra_configs(pids):
     return out, None
 
 
+def run_witnesses():
+    """returns (ok, summary dict)"""
+    w = os.path.join(V, "witness")
+    lock = os.path.join(facts.REPO, "Cargo.lock")
+    if os.path.exists(lock):
+        shutil.copy(lock, os.path.join(w, "Cargo.lock"))
+    tgt = tempfile.mkdtemp(prefix="rsdd-witness.")
+    t0 = time.time()
+    try:
+        env = dict(os.environ, CARGO_TARGET_DIR=tgt, CARGO_NET_OFFLINE="true")
+        r = subprocess.run(["cargo", "+nightly", "test", "--doc", "--offline"], cwd=w, env=env,
+                           capture_output=True, text=True)
+        lines = [l for l in r.stdout.splitlines() if l.startswith("test ") and not l.startswith("test result")]
+        passed = [l for l in lines if l.endswith("... ok")]
+        failed = [l for l in lines if not l.endswith("... ok")]
+        cf = [l for l in passed if "compile fail" in l]
+        ok = r.returncode == 0 and len(passed) >= N_WITNESS and not failed
+        return ok, {"witness_tests": len(lines), "witness_passed": len(passed), "compile_fail_witnesses": len(cf),
+                    "compiling_twins": len(passed) - len(cf), "witness_failed": failed[:5],
+                    "witness_s": round(time.time() - t0, 1),
+                    "witness_stderr_tail": "" if ok else r.stderr[-600:]}
+    finally:
+        shutil.rmtree(tgt, ignore_errors=True)
+
+
+def run_selftest(pid):
+    import json
+    out = tempfile.mktemp(prefix="rsdd-selftest-", suffix=".json")
+    r = subprocess.run(["python3", os.path.join(V, "tools", "selftest.py"), "--prop", pid, "--json", out],
+                       capture_output=True, text=True)
+    res = []
+    if os.path.exists(out):
+        res = json.load(open(out))
+        os.unlink(out)
+    bad = [x for x in res if not x["ok"]]
+    return (r.returncode == 0 and bool(res)), {
+        "selftest_cases": len(res), "selftest_ok": len(res) - len(bad),
+        "selftest_breaking_detected": len([x for x in res if x["ok"] and x["why"].startswith("fires")]),
+        "selftest_preserving_silent": len([x for x in res if x["ok"] and x["why"].startswith("silent")]),
+        "selftest_failures": [{"name": x["name"], "why": x["why"][:300]} for x in bad],
+        "selftest_samples": [{"name": x["name"], "result": x["why"][:200]} for x in res[:8]],
+    }
+
+
 def run_for(pid, prog):
-    return None, [], 0
+    """returns (extra coverage dict, output lines, #violations, #checker failures)"""
+    import hashlib
+    import json
+    cov = {}
+    lines = []
+    viol = 0
+    broken = 0
+    if pid in WITNESS_PROPS:
+        ok, c = run_witnesses()
+        cov.update(c)
+        if not ok:
+            cf_failed = [l for l in c.get("witness_failed", []) if "compile fail" in l]
+            if cf_failed:
+                # code that must not type-check now compiles: the type-level boundary is gone
+                for l in cf_failed:
+                    viol += 1
+                    h = hashlib.sha1(l.encode()).hexdigest()[:10]
+                    path = os.path.join(V, "findings", "%s-witness-%s.json" % (pid, h))
+                    os.makedirs(os.path.dirname(path), exist_ok=True)
+                    json.dump({"property": pid, "instance": {"rule": "IM-witness", "key": "IM-witness:" + l,
+                                                             "verdict": "violation", "detail": l}}, open(path, "w"))
+                    lines.append("VIOLATION property=%s replay=%s" % (pid, path))
+                    lines.append("  a compile_fail witness now compiles: %s" % l)
+            else:
+                broken += 1
+                lines.append("CHECKER-ERROR: witness twins do not compile: %s %s" % (c.get("witness_failed"), c.get("witness_stderr_tail", "")[-200:]))
+    ok, c = run_selftest(pid)
+    cov.update(c)
+    if not ok and c["selftest_cases"]:
+        broken += 1
+        lines.append("CHECKER-ERROR: checker self-test failed for %s: %s" % (pid, c["selftest_failures"][:3]))
+    return cov, lines, viol, broken
